@@ -56,7 +56,7 @@ def is_nan(x) -> bool:
 
 def pos_json(key, p) -> dict:
     return {"lower": str(int(key.lower_tick)), "upper": str(int(key.upper_tick)), "p0": num(p.pending_amount0), "p1": num(p.pending_amount1),
-            "liq": str(int(p.liquidity)), "lp": num(p.lower_price), "up": num(p.upper_price), "ip": num(p.init_price), "tr": bool(p.transferred)}
+            "liq": str(int(p.liquidity)), "ld": isinstance(p.liquidity, Decimal), "lp": num(p.lower_price), "up": num(p.upper_price), "ip": num(p.init_price), "tr": bool(p.transferred)}
 
 
 def row_json(data) -> dict | None:
@@ -122,6 +122,10 @@ def diff_json(a, b, path="") -> str | None:
             if d:
                 return d
         return None
+    if isinstance(a, int) and not isinstance(a, bool) and isinstance(b, str):
+        a = str(a)
+    if isinstance(b, int) and not isinstance(b, bool) and isinstance(a, str):
+        b = str(b)
     if isinstance(a, str) and isinstance(b, str):
         if a == b:
             return None
@@ -191,3 +195,176 @@ def cap_violations(ctx, per_key=3):
             orig(key, what, replay)
     ctx.violate = violate
     ctx._uni_capped = True
+
+
+class quiet:
+    """silence tqdm / logging / print noise of Actuator.run"""
+    def __enter__(self):
+        import contextlib, io, logging, os
+        self._stack = contextlib.ExitStack()
+        self._devnull = open(os.devnull, "w")
+        self._stack.enter_context(contextlib.redirect_stderr(self._devnull))
+        self._stack.enter_context(contextlib.redirect_stdout(self._devnull))
+        logging.disable(logging.CRITICAL)
+        return self
+
+    def __exit__(self, *a):
+        import logging
+        logging.disable(logging.NOTSET)
+        self._stack.close()
+        self._devnull.close()
+
+
+# ------------------------------------------------------------------------------------------ real markets and operations
+POOLS = [(6, 18, True), (6, 18, False), (18, 6, True), (18, 6, False), (8, 18, True), (18, 18, False), (6, 6, True), (18, 8, False)]
+FEES = [0.05, 0.3, 1]
+
+
+class World:
+    """a real Broker + UniLpMarket with a status row and an action log"""
+
+    def __init__(self, rng, pool_spec=None, fee=None, price=None, allow_negative=False, balances=None, tick=None):
+        TokenInfo, Broker, MarketInfo, UniLpMarket, UniV3Pool, UniswapMarketStatus = imports()
+        d0, d1, q0 = pool_spec or rng.choice(POOLS)
+        self.t0, self.t1 = TokenInfo("ta", d0), TokenInfo("tb", d1)
+        self.pool = UniV3Pool(self.t0, self.t1, fee or rng.choice(FEES), self.t0 if q0 else self.t1)
+        self.actions = []
+        self.broker = Broker(allow_negative_balance=allow_negative, record_action_callback=self.actions.append)
+        self.market = UniLpMarket(MarketInfo("uni"), self.pool)
+        self.broker.add_market(self.market)
+        sp = self.pool.tick_spacing
+        # a pool price around a tick in the band where both decimals orientations stay printable
+        self.tick = tick if tick is not None else rng.randint(-400, 400) * sp * 5
+        self.price = price if price is not None else self.market.tick_to_price(self.tick)
+        self.set_status(self.tick, self.price, Decimal(rng.randint(10 ** 12, 10 ** 24)),
+                        Decimal(rng.randint(0, 10 ** 22)), Decimal(rng.randint(0, 10 ** 22)))
+        b = balances if balances is not None else (Decimal(rng.randint(1, 10 ** 6)) / 100, Decimal(rng.randint(1, 10 ** 9)) / 100)
+        if b[0] is not None:
+            self.broker.set_balance(self.pool.base_token, b[0])
+        if b[1] is not None:
+            self.broker.set_balance(self.pool.quote_token, b[1] if price is None else b[1])
+
+    def set_status(self, tick, price, liq, in0, in1):
+        _, _, _, _, _, UniswapMarketStatus = imports()
+        self.market.set_market_status(UniswapMarketStatus(timestamp=None, data=mk_series(tick, liq, in0, in1, price)), price=None)
+
+    def dump(self):
+        return state_json(self.market, self.broker, self.actions)
+
+    def tok(self, name):
+        from demeter import TokenInfo
+        return {"ta": self.t0, "tb": self.t1}.get(name) or TokenInfo(name, 18)
+
+
+def dec_or_none(x):
+    return None if x is None else Decimal(x)
+
+
+def oracle_tick(pool, price):
+    from demeter.uniswap.helper import base_unit_price_to_tick
+    return base_unit_price_to_tick(Decimal(price), pool.token0.decimal, pool.token1.decimal, pool.is_token0_quote)
+
+
+def oracle_ratio(pool, tick, lower, upper):
+    """Decimal(estimate_ratio(tick, lower, upper) * 10 ** (d1 - d0)); 0 when estimate_ratio refuses the tick"""
+    from demeter.uniswap.liquitidy_math import estimate_ratio
+    try:
+        r = estimate_ratio(tick, lower, upper)
+    except Exception:  # noqa: BLE001
+        return Decimal(0)
+    return Decimal(r * 10 ** (pool.token1.decimal - pool.token0.decimal))
+
+
+def fill_oracles(w: World, op: dict) -> dict:
+    """add the float-valued helper results the model takes as inputs (computed by calling the real helpers)"""
+    from demeter.uniswap.helper import nearest_usable_tick
+    op = dict(op)
+    pool = w.pool
+    if op["op"] == "add":
+        try:
+            op["lt"], op["ut"] = oracle_tick(pool, op["lower_price"]), oracle_tick(pool, op["upper_price"])
+        except Exception:  # noqa: BLE001
+            op["lt"] = op["ut"] = None
+    if op["op"] == "add_by_value":
+        price = w.market.market_status.data.price
+        try:
+            te = oracle_tick(pool, price)
+        except Exception:  # noqa: BLE001
+            te = None
+        op["tick_est"] = te
+        if te is not None:
+            lo, up = op["lower"], op["upper"]
+            if op["trim"]:
+                lo, up = nearest_usable_tick(lo, pool.tick_spacing), nearest_usable_tick(up, pool.tick_spacing)
+            op["ratio_amt"] = oracle_ratio(pool, nearest_usable_tick(te, pool.tick_spacing), lo, up)
+        else:
+            op["ratio_amt"] = Decimal(0)
+    return op
+
+
+def flat(v):
+    """flatten a return value into the list of numbers the model returns"""
+    if v is None:
+        return []
+    out = []
+    for x in v:
+        if isinstance(x, tuple) and hasattr(x, "lower_tick"):
+            out += [str(int(x.lower_tick)), str(int(x.upper_tick))]
+        else:
+            out.append(num(x))
+    return out
+
+
+def apply_op(w: World, op: dict):
+    """run one operation on the real market; returns (exception class name | None, flattened result)"""
+    from demeter.uniswap._typing import PositionInfo
+    m = w.market
+    k = op["op"]
+    try:
+        if k == "add_raw":
+            r = m._add_liquidity_by_tick(Decimal(op["a0"]), Decimal(op["a1"]), op["lower"], op["upper"], -1 if op["sqrt"] is None else int(op["sqrt"]))
+        elif k == "add_by_tick":
+            r = m.add_liquidity_by_tick(op["lower"], op["upper"], dec_or_none(op["base"]), dec_or_none(op["quote"]),
+                                        -1 if op["sqrt"] is None else int(op["sqrt"]), -1 if op["tick"] is None else op["tick"], op["trim"])
+        elif k == "add":
+            r = m.add_liquidity(Decimal(op["lower_price"]), Decimal(op["upper_price"]), dec_or_none(op["quote"]), dec_or_none(op["base"]))
+        elif k == "remove":
+            r = m.remove_liquidity(PositionInfo(op["lower"], op["upper"]), None if op["liq"] is None else int(op["liq"]), op["collect"],
+                                   -1 if op["sqrt"] is None else int(op["sqrt"]), op["remove_dry"])
+        elif k == "collect":
+            r = m.collect_fee(PositionInfo(op["lower"], op["upper"]), dec_or_none(op["max0"]), dec_or_none(op["max1"]), op["remove_dry"], op["to_user"])
+        elif k == "remove_all":
+            r = m.remove_all_liquidity()
+        elif k == "swap":
+            r = m.swap(Decimal(op["amount"]), w.tok(op["from"]), w.tok(op["to"]), dec_or_none(op["price"]), op["log"])
+        elif k == "buy":
+            r = m.buy(Decimal(op["amount"]), dec_or_none(op["price"]))
+        elif k == "sell":
+            r = m.sell(Decimal(op["amount"]), dec_or_none(op["price"]))
+        elif k == "even_rebalance":
+            r = m.even_rebalance(dec_or_none(op["price"]))
+        elif k == "add_by_value":
+            r = m.add_liquidity_by_value(op["lower"], op["upper"], dec_or_none(op["value"]), op["trim"])
+        elif k == "transfer_out":
+            r = m.transfer_position_out(PositionInfo(op["lower"], op["upper"]))
+        elif k == "transfer_in":
+            r = m.transfer_position_in(PositionInfo(op["lower"], op["upper"]))
+        else:
+            raise KeyError(k)
+        return None, flat(r)
+    except Exception as e:  # noqa: BLE001
+        return type(e).__name__, None
+
+
+def op_req(w: World, op: dict, before: dict) -> dict:
+    """driver request for one step"""
+    o = {k: (fmt(v) if isinstance(v, Decimal) else v) for k, v in op.items()}
+    for k in ("lower", "upper", "lt", "ut", "tick", "tick_est", "liq"):
+        if o.get(k) is not None and k in o:
+            o[k] = str(o[k])
+    return {"fn": "uni.step", "pool": pool_json(w.pool), "state": before, "op": o}
+
+
+def obs_equal(a: dict, b: dict):
+    """difference between two dumps on everything the "state intact" property covers (has_update is bookkeeping)"""
+    return diff_json({k: v for k, v in a.items() if k != "upd"}, {k: v for k, v in b.items() if k != "upd"})
